@@ -217,6 +217,67 @@ def main():
             want_fail = r['esev'] <= 1
             if (rc != 0) != want_fail or rc is None or rc < 0:
                 chk.violation('%s/p21read-exit/%s/%s' % (PID, 'strict' if c['strict'] else 'lenient', rc), 'p21read exit %s but severity %s' % (rc, r['esev']), dict(c))
+        # the required STRING attributes of the HEADER entities follow the same table as those of the data section
+        if fam.name == 'fk':
+            HT = "ISO-10303-21;\nHEADER;\nFILE_DESCRIPTION(('verif'),%s);\nFILE_NAME(%s);\nFILE_SCHEMA(('FK'));\nENDSEC;\nDATA;\n#1=TGT(11);\nENDSEC;\nEND-ISO-10303-21;\n"
+            fn = ["'n'", "'2020-01-01T00:00:00'", "('au')", "('org')", "'pp'", "'os'", "'auth'"]
+            hc = []
+            for lit, form in (('$', '$'), ('', 'empty'), ('$ /* c */', '$+comment')):
+                for strict in (False, True):
+                    for k, an in ((0, 'name'), (1, 'time_stamp'), (4, 'preprocessor_version'), (5, 'originating_system'), (6, 'authorization')):
+                        pp = list(fn)
+                        pp[k] = lit
+                        hc.append({'ent': 'file_name', 'attr_name': an, 'k': k, 'form': form, 'strict': strict, 'text': HT % ("'2;1'", ','.join(pp)), 'family': fam.name, 'header': True})
+                    hc.append({'ent': 'file_description', 'attr_name': 'implementation_level', 'k': 1, 'form': form, 'strict': strict, 'text': HT % (lit, ','.join(fn)), 'family': fam.name, 'header': True})
+            for c, r in zip(hc, p21run.run_many(lib, hc, chunksize=4)):
+                chk.count(states=1, transitions=1)
+                mode = 'strict' if c['strict'] else 'lenient'
+                chk.cls('%s/header/STRING' % mode)
+                ctx = '%s/header:%s.%s' % (mode, c['ent'], c['attr_name'])
+                v = []
+                if 'crash' in r:
+                    v.append(('crash/%s/%s' % tuple(r['crash']), 'crash %s in %s' % tuple(r['crash'])))
+                elif c['strict']:
+                    if r['esev'] > 1:
+                        v.append(('required-unset-accepted/%s' % ctx, 'unset required header attribute %s read with severity %d in strict mode (expected incomplete)' % (c['attr_name'], r['esev'])))
+                else:
+                    if r['esev'] != 2:
+                        v.append(('lenient-filler-severity/%s' % ctx, 'unset required header attribute %s in lenient mode: severity %d, expected USERMSG (2)' % (c['attr_name'], r['esev'])))
+                    elif c['attr_name'] != 'time_stamp':      # (the writer stamps the time itself)
+                        m = re.search(r'%s\s*\((.*?)\);' % c['ent'].upper(), (r.get('out1') or b'').decode('latin1'), re.S)
+                        got = None
+                        if m:
+                            try:
+                                got = p21ref.parse_record(p21ref.Lexer(('X(%s)' % m.group(1)).encode('latin1')))[1][c['k']]
+                            except Exception:
+                                got = 'unparsable'
+                        if not (isinstance(got, tuple) and got[0] == 'str' and got[1] == b''):
+                            v.append(('lenient-filler-value/%s' % ctx, "substituted header value written back as %s, expected ''" % (got if not isinstance(got, tuple) else p21ref.render(got),)))
+                if not v:
+                    chk.outcome('as-documented:sev=%s' % r.get('esev'))
+                for kp, what in v:
+                    chk.outcome(kp.split('/')[0])
+                    chk.violation('%s/%s' % (PID, kp), what, dict(c))
+        # every way of asking the reference tool for strict mode means strict mode (the options may be grouped in one word), and no other option does
+        if fam.name == 'fk':
+            pick = [(c, r) for c, r in p21todo if c['ent'] in ('e_stri', 'e_inte', 'e_enum') and c['form'] == '$' and c.get('dress') is None][:8]
+            SP = [(('-s',), True, True), (('-is',), True, True), (('-si',), True, True), (('-ts',), True, True), (('-st',), True, True), (('-its',), True, True), (('-tis',), True, True),
+                  (('-i', '-s'), True, False), (('-s', '-i'), True, False), (('-t', '-s'), True, False),
+                  ((), False, True), (('-i',), False, True), (('-t',), False, True), (('-it',), False, True), (('-i', '-t'), False, False)]
+            jobs = [(c, sp) for c, r in pick if c['strict'] for sp in SP]
+            rcs2 = common.tmap(lambda j: p21run.p21read(lib, j[0]['text'], opts=j[1][0], with_out=j[1][2])[0], jobs)
+            ref = {}
+            for (c, sp), rc in zip(jobs, rcs2):
+                if sp[0] in (('-s',), ()):
+                    ref[(c['ent'], sp[1])] = rc
+            for (c, sp), rc in zip(jobs, rcs2):
+                chk.count(states=1, transitions=1)
+                chk.cls('p21read-options/%s' % ('strict' if sp[1] else 'lenient'))
+                if rc != ref[(c['ent'], sp[1])]:
+                    chk.violation('%s/p21read-options/%s/%s' % (PID, 'strict-requested-as' if sp[1] else 'lenient-with', ' '.join(sp[0]) or 'none'),
+                                  'p21read %s on an unset required %s attribute exits %s, p21read %s exits %s' % (' '.join(sp[0]), c['ent'][2:], rc, '-s' if sp[1] else '(no option)', ref[(c['ent'], sp[1])]), dict(c, options=list(sp[0])))
+                else:
+                    chk.outcome('option-spelling-equivalent')
         chk.bounds[fam.name] = {'cases': len(cases)}
     if len(chk.outcomes) < 2 or not any(k.startswith('lenient/required/INTEGER') for k in chk.classes):
         chk.harness_error('vacuous: %s' % dict(chk.outcomes))
